@@ -1,7 +1,7 @@
 \* thorough: as quick, on the 2-D 3x2 lattice with the squared Euclidean key (a border row
 \* between two clusters has two admissible labels, both are enumerated)
 CONSTANTS W = 3  H = 2  MaxN = 4  EpsSet = {1, 2}  MinPtsSet = {1, 2, 3, 4}
-          Key = "euc2"  Mode = "intended"
+          Key = "euc2"  Mode = "guarded"
 SPECIFICATION Spec
 INVARIANT PredictSatisfiesProperty
 INVARIANT TableIsVotes
